@@ -5,7 +5,7 @@ from ..core import RuleResult, need
 from ..cfg import cfg_of
 from ..flow import flow_of, access_path, path_base
 from ..astutil import (src, walk_no_nested, call_attr, call_name, returns_of, compare_parts,
-                       names_in, is_name, path_of)
+                       names_in, is_name, path_of, comparison_holding)
 from ..kinds import infeasible_edges, has_kind_tests, TERM_KINDS
 from ..repo import dotted
 
@@ -243,22 +243,16 @@ def rule_k3(repo):
         x, th = params
         rets = thm_returns(func)
         need(rets, '%s: no return Thm' % fn)
-        # --- the side condition guard: any(hyp.<f>(x) for hyp in th.hyps) with raise on true
-        guard_nodes = []
-        side_fn = None
-        for n in cfg.test_nodes():
-            e = n.ast
-            if isinstance(e, ast.Call) and is_name(e.func, 'any') and len(e.args) == 1 and \
-                    isinstance(e.args[0], (ast.GeneratorExp, ast.ListComp)):
-                g = e.args[0]
-                if len(g.generators) == 1 and path_of(g.generators[0].iter) == th + '.hyps' and \
-                        not g.generators[0].ifs and isinstance(g.elt, ast.Call) and \
-                        isinstance(g.elt.func, ast.Attribute) and \
-                        is_name(g.elt.func.value, getattr(g.generators[0].target, 'id', None)) and \
-                        len(g.elt.args) == 1 and is_name(g.elt.args[0], x):
-                    guard_nodes.append(n)
-                    side_fn = g.elt.func.attr
-        edges = {(n.id, 'false') for n in guard_nodes}
+        # --- the side condition guard: any(hyp.<f>(x) for hyp in th.hyps) with raise on true, or the same as a loop
+        from ..idioms import forall_not_edges
+
+        def elem_test(e, v, x=x):
+            if isinstance(e, ast.Call) and isinstance(e.func, ast.Attribute) and is_name(e.func.value, v) and len(e.args) == 1 and is_name(e.args[0], x):
+                return e.func.attr
+            return None
+        edges, infos = forall_not_edges(cfg, lambda it, th=th: path_of(it) == th + '.hyps', elem_test)
+        guard_nodes = list(edges)
+        side_fn = infos[0] if infos else None
         unguarded = [r.lineno for r, _c in rets if cfg.path_avoiding(cfg.node_for(r), skip_edges=edges) is not None]
         res.add('%s :: %s :: side-condition-guard' % (THM, fn), guard_nodes and not unguarded,
                 'any(hyp.%s(%s) for hyp in %s.hyps) is false on every path to the result' % (side_fn, x, th)
@@ -332,6 +326,16 @@ def rule_k3(repo):
                 for b in ast.walk(r.ast.value):
                     if isinstance(b, ast.BoolOp) and isinstance(b.op, ast.And):
                         conj = True
+            # a disjunct spelled out: `if self.fun.occurs_var(t): return True`
+            for tn in cfg.test_nodes():
+                if tn.id not in reach:
+                    continue
+                c = tn.ast
+                if isinstance(c, ast.Call) and isinstance(c.func, ast.Attribute) and c.func.attr == occurs.name \
+                        and isinstance(c.func.value, ast.Attribute) and is_name(c.func.value.value, 'self'):
+                    yes = [b for b, l in tn.succ if l == 'true']
+                    if yes and all(isinstance(b.ast, ast.Return) and isinstance(b.ast.value, ast.Constant) and b.ast.value.value is True for b in yes):
+                        visited.add(c.func.value.attr)
             miss = [f for f in fields if f not in visited]
             res.add('%s :: %s :: traverses(%s)' % (TERM, occurs.qualname, kind), not miss and not conj,
                     'recurses into %s' % ','.join(fields) if not miss and not conj else
@@ -471,20 +475,16 @@ def rule_k6(repo):
     need(evals, '_check_proof_item: macro.eval call not found')
     for n in evals:
         def gate(expr, pol):
-            cp = compare_parts(expr)
-            if not cp or not pol:
-                return False
-            a, b = path_of(cp[1]), path_of(cp[2])
-            if cp[0] is ast.LtE and a and a.endswith('.level') and b == 'check_level':
-                return True
-            if cp[0] is ast.GtE and b and b.endswith('.level') and a == 'check_level':
-                return True
+            for op, a, b in comparison_holding(expr, pol):
+                if op is ast.LtE and (path_of(a) or '').endswith('.level') and path_of(b) == 'check_level':
+                    return True
             return False
 
         def notnone(expr, pol):
-            cp = compare_parts(expr)
-            return bool(cp) and cp[0] is ast.IsNot and pol and (path_of(cp[1]) or '').endswith('.level') \
-                and isinstance(cp[2], ast.Constant) and cp[2].value is None
+            for op, a, b in comparison_holding(expr, pol):
+                if op is ast.IsNot and (path_of(a) or '').endswith('.level') and isinstance(b, ast.Constant) and b.value is None:
+                    return True
+            return False
         e1 = cfg.establishing_edges(gate)
         e2 = cfg.establishing_edges(notnone)
         ok = cfg.path_avoiding(n, skip_edges=e1) is None and cfg.path_avoiding(n, skip_edges=e2) is None
